@@ -1,11 +1,218 @@
-//! (stub) binding for this area — see DESIGN.md
-use crate::util::Args;
-use anyhow::Result;
+//! Driving the real compressor / decompressor and producing the combined "view" of an archive
+//! for spec/Trace_ArchiveSemantics.tla: input (abstract case) + structural view from the
+//! independent lexer (lex.rs) + what ragc's own reader returns.
+use crate::gen;
+use crate::lex;
+use crate::util::{self, Args};
+use anyhow::{anyhow, Context, Result};
+use ragc_core::contig_iterator::ContigIterator;
+use ragc_core::{Decompressor, DecompressorConfig, MultiFileIterator, StreamingQueueCompressor, StreamingQueueConfig};
+use serde_json::{json, Value};
+use std::io::Write;
+use std::path::PathBuf;
 
-/// Returns None when `cmd` is not one of this module's sub-commands.
 pub fn dispatch(cmd: &str, a: &Args) -> Option<Result<()>> {
-    let _ = a;
     match cmd {
+        "create" => Some(cmd_create(a)),
+        "archive-view" => Some(cmd_view(a)),
         _ => None,
     }
+}
+
+#[derive(Clone, Debug)]
+pub struct CreateOpts {
+    pub files: Vec<String>,
+    pub out: String,
+    pub k: usize,
+    pub segment_size: usize,
+    pub min_match: usize,
+    pub threads: usize,
+    pub queue_capacity: usize,
+    pub fallback_frac: f64,
+    pub pack_size: usize,
+}
+
+impl CreateOpts {
+    pub fn from_args(a: &Args) -> Result<Self> {
+        Ok(CreateOpts {
+            files: a.get("files")?.split(',').map(|s| s.to_string()).collect(),
+            out: a.get("out")?.to_string(),
+            k: a.num("k", 11usize),
+            segment_size: a.num("seg", 100usize),
+            min_match: a.num("mm", 15usize),
+            threads: a.num("threads", 2usize),
+            queue_capacity: a.num("cap", 2usize << 30),
+            fallback_frac: a.num("fallback", 0.0f64),
+            pack_size: a.num("pack", 50usize),
+        })
+    }
+}
+
+/// The same call sequence as `ragc create` (ragc-cli/src/main.rs, streaming mode):
+/// one input  ⇒ concatenated mode, splitters from the first sample, push everything, drain at the
+///              first sample change, finalize;
+/// n inputs   ⇒ splitters from file 1, push file 1, drain, sync_and_flush, push the rest, finalize.
+pub fn create_like_cli(o: &CreateOpts) -> Result<()> {
+    let inputs: Vec<PathBuf> = o.files.iter().map(PathBuf::from).collect();
+    if inputs.is_empty() {
+        return Err(anyhow!("No input files provided"));
+    }
+    let config = StreamingQueueConfig {
+        k: o.k,
+        segment_size: o.segment_size,
+        min_match_len: o.min_match,
+        pack_size: o.pack_size,
+        queue_capacity: o.queue_capacity,
+        num_threads: o.threads,
+        verbosity: 0,
+        adaptive_mode: false,
+        fallback_frac: o.fallback_frac,
+        concatenated_genomes: inputs.len() == 1,
+        ..StreamingQueueConfig::default()
+    };
+    let splitters = if inputs.len() == 1 {
+        ragc_core::determine_splitters_streaming_first_sample(&inputs[0], o.k, o.segment_size)?.0
+    } else {
+        ragc_core::determine_splitters_streaming(&inputs[0], o.k, o.segment_size)?.0
+    };
+    let mut compressor = StreamingQueueCompressor::with_splitters(&o.out, config, splitters)?;
+    if inputs.len() == 1 {
+        let mut it = MultiFileIterator::new(vec![inputs[0].clone()])?;
+        let mut current: Option<String> = None;
+        let mut seen: std::collections::HashSet<String> = Default::default();
+        let mut ref_done = false;
+        while let Some((sample, contig, seq)) = it.next_contig()? {
+            if seq.is_empty() {
+                continue;
+            }
+            if current.as_ref() != Some(&sample) {
+                if seen.contains(&sample) {
+                    return Err(anyhow!("Single-file PanSN mode requires samples to be sorted by name"));
+                }
+                if !ref_done && current.is_some() {
+                    compressor.drain()?;
+                    ref_done = true;
+                }
+                if let Some(prev) = current.take() {
+                    seen.insert(prev);
+                }
+                current = Some(sample.clone());
+            }
+            compressor.push(sample, contig, seq)?;
+        }
+    } else {
+        let mut it = MultiFileIterator::new(vec![inputs[0].clone()])?;
+        while let Some((sample, contig, seq)) = it.next_contig()? {
+            if !seq.is_empty() {
+                compressor.push(sample, contig, seq)?;
+            }
+        }
+        compressor.drain()?;
+        compressor.sync_and_flush("AAA#0_REF")?;
+        for f in &inputs[1..] {
+            let mut it = MultiFileIterator::new(vec![f.clone()])?;
+            while let Some((sample, contig, seq)) = it.next_contig()? {
+                if !seq.is_empty() {
+                    compressor.push(sample, contig, seq)?;
+                }
+            }
+        }
+    }
+    compressor.finalize()?;
+    Ok(())
+}
+
+fn cmd_create(a: &Args) -> Result<()> {
+    util::install_panic_hook();
+    let o = CreateOpts::from_args(a)?;
+    let r = util::catch(std::panic::AssertUnwindSafe(|| create_like_cli(&o)));
+    let (class, msg) = match r {
+        Ok(Ok(())) => ("ok", String::new()),
+        Ok(Err(e)) => ("err", format!("{:#}", e)),
+        Err(p) => ("panic", p),
+    };
+    let sha = if class == "ok" { std::fs::read(&o.out).map(|b| util::sha256_hex(&b)).unwrap_or_default() } else { String::new() };
+    println!("{}", json!({"result": class, "msg": msg, "sha256": sha}));
+    Ok(())
+}
+
+fn b(s: &str) -> Value {
+    Value::Array(s.bytes().map(|x| json!(x)).collect())
+}
+
+/// What ragc's own reader says about the archive (every call's panic is data).
+pub fn ragc_records(agc: &str) -> Vec<Value> {
+    let mut out = vec![];
+    let open = util::catch(std::panic::AssertUnwindSafe(|| Decompressor::open(agc, DecompressorConfig { verbosity: 0 })));
+    let mut d = match open {
+        Ok(Ok(d)) => d,
+        Ok(Err(e)) => {
+            out.push(json!({"ev": "ragc_open", "result": "err", "msg": format!("{:#}", e)}));
+            return out;
+        }
+        Err(p) => {
+            out.push(json!({"ev": "ragc_open", "result": "panic", "msg": p}));
+            return out;
+        }
+    };
+    out.push(json!({"ev": "ragc_open", "result": "ok", "msg": ""}));
+    let samples = d.list_samples();
+    out.push(json!({"ev": "ragc_samples", "names": samples.iter().map(|s| b(s)).collect::<Vec<_>>()}));
+    for s in &samples {
+        let r = util::catch(std::panic::AssertUnwindSafe(|| d.get_sample(s)));
+        match r {
+            Ok(Ok(cs)) => out.push(json!({"ev": "ragc_sample", "sample": b(s), "result": "ok", "msg": "",
+                "contigs": cs.iter().map(|(n, q)| json!({"name": b(n), "seq": q})).collect::<Vec<_>>()})),
+            Ok(Err(e)) => out.push(json!({"ev": "ragc_sample", "sample": b(s), "result": "err", "msg": format!("{:#}", e), "contigs": []})),
+            Err(p) => out.push(json!({"ev": "ragc_sample", "sample": b(s), "result": "panic", "msg": p, "contigs": []})),
+        }
+    }
+    // contig lists (catalogue) through the listing API on a fresh handle
+    if let Ok(mut d2) = Decompressor::open(agc, DecompressorConfig { verbosity: 0 }) {
+        for s in &samples {
+            let r = util::catch(std::panic::AssertUnwindSafe(|| d2.list_contigs(s)));
+            let (res, names) = match r {
+                Ok(Ok(v)) => ("ok", v),
+                Ok(Err(_)) => ("err", vec![]),
+                Err(_) => ("panic", vec![]),
+            };
+            out.push(json!({"ev": "ragc_contigs", "sample": b(s), "result": res, "names": names.iter().map(|n| b(n)).collect::<Vec<_>>()}));
+        }
+    }
+    out
+}
+
+/// Combined view: case (input + parameters) + lexer records + ragc reader records.
+fn cmd_view(a: &Args) -> Result<()> {
+    util::install_panic_hook();
+    let agc = a.get("agc")?;
+    let case: Value = serde_json::from_slice(&std::fs::read(a.get("case")?)?)?;
+    let samples = gen::from_json(&case["samples"]);
+    let mut out = std::io::BufWriter::new(std::fs::File::create(a.get("out")?)?);
+    let input: Vec<Value> = samples
+        .iter()
+        .map(|s| json!({"name": b(&s.name), "contigs": s.contigs.iter().map(|c| json!({"name": b(&c.name), "seq": c.seq})).collect::<Vec<_>>()}))
+        .collect();
+    writeln!(out, "{}", json!({"ev": "case", "k": a.num("k", 11u32), "seg": a.num("seg", 100u32), "mm": a.num("mm", 15u32),
+        "id": a.opt("id").unwrap_or(""), "input": input}))?;
+    if a.flag("no-lex") {
+        writeln!(out, "{}", json!({"ev": "lex", "result": "skipped", "msg": ""}))?;
+    } else {
+    match lex::lex_records(agc) {
+        Ok(recs) => {
+            writeln!(out, "{}", json!({"ev": "lex", "result": "ok", "msg": ""}))?;
+            for r in recs {
+                writeln!(out, "{}", r)?;
+            }
+        }
+        Err(e) => {
+            writeln!(out, "{}", json!({"ev": "lex", "result": "err", "msg": format!("{:#}", e)}))?;
+        }
+    }
+    }
+    for r in ragc_records(agc) {
+        writeln!(out, "{}", r)?;
+    }
+    out.flush().context("flush view")?;
+    Ok(())
 }
